@@ -16,32 +16,7 @@ func loopTermination(c *Ctx, rule string, scope []*ssa.Function) {
 	for _, f := range scope {
 		inScope[f] = true
 	}
-	// functions that (transitively) perform a read on an io.Reader
-	consuming := map[*ssa.Function]bool{}
-	changed := true
-	for changed {
-		changed = false
-		for _, f := range scope {
-			if consuming[f] {
-				continue
-			}
-			for _, call := range calls(f) {
-				cc := call.Common()
-				if cc.IsInvoke() && cc.Method.Name() == "Read" && cc.Value.Type().String() == "io.Reader" {
-					consuming[f] = true
-				}
-				if q := calleeQual(call); q == "io.ReadFull" || q == "io.CopyN" || q == "io.ReadAtLeast" {
-					consuming[f] = true
-				}
-				if cal := cc.StaticCallee(); cal != nil && consuming[cal] {
-					consuming[f] = true
-				}
-			}
-			if consuming[f] {
-				changed = true
-			}
-		}
-	}
+	consuming := consumingFuncs(scope)
 	n := 0
 	for _, fn := range scope {
 		for li, l := range naturalLoops(fn) {
@@ -401,3 +376,33 @@ func callCannotStore(call ssa.CallInstruction, fv *types.Var, depth int, seen ma
 	return true
 }
 
+
+// consumingFuncs: functions that (transitively) perform a read on an io.Reader.
+func consumingFuncs(scope []*ssa.Function) map[*ssa.Function]bool {
+	consuming := map[*ssa.Function]bool{}
+	changed := true
+	for changed {
+		changed = false
+		for _, f := range scope {
+			if consuming[f] {
+				continue
+			}
+			for _, call := range calls(f) {
+				cc := call.Common()
+				if cc.IsInvoke() && cc.Method.Name() == "Read" && cc.Value.Type().String() == "io.Reader" {
+					consuming[f] = true
+				}
+				if q := calleeQual(call); q == "io.ReadFull" || q == "io.CopyN" || q == "io.ReadAtLeast" {
+					consuming[f] = true
+				}
+				if cal := cc.StaticCallee(); cal != nil && consuming[cal] {
+					consuming[f] = true
+				}
+			}
+			if consuming[f] {
+				changed = true
+			}
+		}
+	}
+	return consuming
+}
